@@ -469,13 +469,100 @@ namespace
 }  // namespace
 
 void verif_init() { stdlib::register_standard_operators(); }
-std::optional<std::string> verif_run_case(verif::Ctx &, const std::string &desc) { return run_family_case(desc); }
+
+// ---- defaults pool ------------------------------------------------------------------------------------------------------------
+// Candidates with DEFAULTED scalar parameters, called with the defaults used, supplied by position or supplied by name. Oracle:
+// clause (1) only - the outcome (selected label / ambiguous / no match) is the same for every registration order of the family.
+namespace
+{
+    struct DCand { std::string label; std::vector<ParamPattern> params; };
+    ParamPattern d_in(std::string name, TypePattern pattern) { ParamPattern p; p.kind = ParamPattern::Kind::Input; p.name = std::move(name); p.ts = std::move(pattern); return p; }
+    ParamPattern d_scalar(std::string name, ScalarPattern pattern, std::optional<Value> dv = std::nullopt) { ParamPattern p; p.kind = ParamPattern::Kind::Scalar; p.name = std::move(name); p.scalar = std::move(pattern); p.default_value = std::move(dv); return p; }
+    WiringArg d_ts_arg(const TSValueTypeMetaData *schema) { WiringArg a; a.kind = WiringArg::Kind::TimeSeries; a.port.schema = schema; return a; }
+    WiringArg d_int_arg(Int v, std::string name = {}) { WiringArg a; a.kind = WiringArg::Kind::Scalar; a.scalar_value = Value{v}; a.scalar_meta = a.scalar_value.schema(); a.name = std::move(name); return a; }
+    std::vector<DCand> defaults_pool()
+    {
+        const auto *ts_int = ts_type<TS<Int>>(); const auto *ts_str = ts_type<TS<Str>>();
+        const ScalarPattern int_p = ScalarPattern::concrete(scalar_type<Int>());
+        return {
+            {"unary(ts)", {d_in("ts", TypePattern::concrete(ts_int))}},
+            {"plain(ts,k)", {d_in("ts", TypePattern::concrete(ts_int)), d_scalar("k", int_p)}},
+            {"defaulted(ts,k=3)", {d_in("ts", TypePattern::concrete(ts_int)), d_scalar("k", int_p, Value{Int{3}})}},
+            {"generic(S,k=3)", {d_in("ts", TypePattern::var("S")), d_scalar("k", int_p, Value{Int{3}})}},
+            {"flags(ts,a=1,b=2)", {d_in("ts", TypePattern::concrete(ts_int)), d_scalar("a", int_p, Value{Int{1}}), d_scalar("b", int_p, Value{Int{2}})}},
+            {"pair(ts,a,b)", {d_in("ts", TypePattern::concrete(ts_int)), d_scalar("a", int_p), d_scalar("b", int_p)}},
+            {"promote(ts,a:ts,b)", {d_in("ts", TypePattern::concrete(ts_int)), d_in("a", TypePattern::concrete(ts_int)), d_scalar("b", int_p)}},
+            {"strings(ts:str,k)", {d_in("ts", TypePattern::concrete(ts_str)), d_scalar("k", int_p)}},
+        };
+    }
+    std::vector<std::vector<WiringArg>> defaults_calls()
+    {
+        const auto *ts_int = ts_type<TS<Int>>();
+        return {{d_ts_arg(ts_int)}, {d_ts_arg(ts_int), d_int_arg(Int{5})}, {d_ts_arg(ts_int), d_int_arg(Int{5}, "k")}, {d_ts_arg(ts_int), d_int_arg(Int{7}), d_int_arg(Int{8})},
+                {d_ts_arg(ts_int), d_int_arg(Int{7}, "a")}, {d_ts_arg(ts_int), d_int_arg(Int{8}, "b")}};
+    }
+    // desc: D|<family indices as digits>|<call index>
+    std::optional<std::string> run_defaults_case(const std::string &desc, std::string *sig = nullptr, bool *nontrivial = nullptr)
+    {
+        const auto bar = desc.find('|', 2);
+        std::vector<int> fam; for (char ch : desc.substr(2, bar - 2)) fam.push_back(ch - '0');
+        const auto pool = defaults_pool();
+        const auto call = defaults_calls().at(static_cast<std::size_t>(std::stoi(desc.substr(bar + 1))));
+        std::sort(fam.begin(), fam.end());
+        std::map<std::string, std::string> by_order;
+        static int unique = 0;
+        do
+        {
+            const std::string op = "c19_defaults_" + std::to_string(unique++);
+            std::string key;
+            for (int i : fam)
+            {
+                OperatorImpl impl; impl.name = op; impl.label = pool[static_cast<std::size_t>(i)].label; impl.params = pool[static_cast<std::size_t>(i)].params;
+                impl.rank = operator_dispatch_detail::operator_rank(impl.params, impl.variadic);
+                OperatorRegistry::instance().register_overload(std::move(impl));
+                key += (key.empty() ? "" : ", ") + pool[static_cast<std::size_t>(i)].label;
+            }
+            std::string got;
+            try { got = "selected " + OperatorRegistry::instance().resolve(op, std::span<const WiringArg>{call}, false).impl->label; }
+            catch (const OperatorResolutionError &e) { const std::string w = e.what(); got = w.find("mbiguous") != std::string::npos ? "ambiguous" : "no match"; }
+            by_order[key] = got;
+        } while (std::next_permutation(fam.begin(), fam.end()));
+        std::set<std::string> distinct; for (auto &[k, v] : by_order) distinct.insert(v);
+        if (sig) *sig = desc.substr(0, bar) + ":" + *distinct.begin();
+        if (nontrivial) *nontrivial = fam.size() >= 2 && distinct.begin()->rfind("no match", 0) != 0;
+        if (distinct.size() == 1) return std::nullopt;
+        std::string text = "the outcome depends on the registration order:";
+        for (auto &[k, v] : by_order) text += "\n    registered [" + k + "] -> " + v;
+        return text;
+    }
+}
+
+std::optional<std::string> verif_run_case(verif::Ctx &, const std::string &desc) { return desc.rfind("D|", 0) == 0 ? run_defaults_case(desc) : run_family_case(desc); }
 
 void enumerate_variadic(verif::Ctx &ctx);
 void enumerate_bundles(verif::Ctx &ctx);
 void enumerate_depth(verif::Ctx &ctx);
 void verif_enumerate(verif::Ctx &ctx)
 {
+    // defaults pool: every family of 1..3 (4) candidates x every call form; all registration orders inside run_defaults_case
+    {
+        const int n = static_cast<int>(defaults_pool().size()), ncalls = static_cast<int>(defaults_calls().size());
+        for (int mask = 1; mask < (1 << n); ++mask)
+        {
+            if (__builtin_popcount(static_cast<unsigned>(mask)) > (ctx.thorough() ? 4 : 3)) continue;
+            std::string fam; for (int i = 0; i < n; ++i) if (mask & (1 << i)) fam += static_cast<char>('0' + i);
+            for (int c = 0; c < ncalls; ++c)
+            {
+                if (!ctx.next_is_mine()) continue;
+                const std::string desc = "D|" + fam + "|" + std::to_string(c);
+                std::string sig; bool nt = false;
+                ++ctx.evaluations; ++ctx.traces;
+                auto v = run_defaults_case(desc, &sig, &nt);
+                ctx.state(sig); if (nt) ctx.nontriv(desc); ctx.count("defaults_cases");
+                if (v) ctx.violation(desc, *v, "defaults: registration order decides " + desc);
+            }
+        }
+    }
     const bool th = ctx.thorough();
     const int max_family = th ? 5 : 4;
     const std::size_t nargs = arg_types().size();
